@@ -125,6 +125,10 @@ def post (suppress : Bool) (s : St) (r : Res) : St × Res :=
   if !suppress && s'.errexit && r.code ≠ 0 && r.flow.isNormal then (s', { r with flow := .exit })
   else (s', r)
 
+/-- what the pipeline holding a brace group, loop, `if` or `case` does with the status the compound
+command passes on: `$?` only — errexit was checked (or exempt) where the failing command ran -/
+def postC (s : St) (r : Res) : St × Res := ({ s with last := r.code }, r)
+
 abbrev Out := Option (St × Res)
 
 mutual
@@ -157,37 +161,37 @@ def exec : Nat → List Cmd → Bool → Cmd → St → Out
       match exec fuel fs true cond s with
       | none => none
       | some (s1, r1) =>
-        if !r1.flow.isNormal then some (post sup s1 r1)
+        if !r1.flow.isNormal then some (postC s1 r1)
         else if r1.code = 0 then
           match exec fuel fs sup thn s1 with
           | none => none
-          | some (s2, r2) => some (post sup s2 r2)
-        else some (post sup { s1 with last := 0 } { code := 0, flow := .normal })
+          | some (s2, r2) => some (postC s2 r2)
+        else some (postC { s1 with last := 0 } { code := 0, flow := .normal })
     | .if2 cond thn els =>
       match exec fuel fs true cond s with
       | none => none
       | some (s1, r1) =>
-        if !r1.flow.isNormal then some (post sup s1 r1)
+        if !r1.flow.isNormal then some (postC s1 r1)
         else
           match exec fuel fs sup (if r1.code = 0 then thn else els) s1 with
           | none => none
-          | some (s2, r2) => some (post sup s2 r2)
+          | some (s2, r2) => some (postC s2 r2)
     | .whileU isUntil cond body =>
       match loopW fuel fs sup isUntil cond body s { code := 0, flow := .normal } with
       | none => none
-      | some (s1, r1) => some (post sup { s1 with last := r1.code } r1)
+      | some (s1, r1) => some (postC { s1 with last := r1.code } r1)
     | .forIn n body =>
       match loopF fuel fs sup n body s { code := 0, flow := .normal } with
       | none => none
-      | some (s1, r1) => some (post sup { s1 with last := r1.code } r1)
+      | some (s1, r1) => some (postC { s1 with last := r1.code } r1)
     | .case arms =>
       match execArms fuel fs sup arms false s { code := 0, flow := .normal } with
       | none => none
-      | some (s1, r1) => some (post sup { s1 with last := r1.code } r1)
+      | some (s1, r1) => some (postC { s1 with last := r1.code } r1)
     | .group c =>
       match exec fuel fs sup c s with
       | none => none
-      | some (s1, r1) => some (post sup s1 r1)
+      | some (s1, r1) => some (postC s1 r1)
     | .subshell c =>
       match exec fuel fs sup c s with
       | none => none
